@@ -414,3 +414,23 @@ Proof.
     split; [|split; congruence]. intros fuel k.
     rewrite (dedup_stage_den sense _ _ _ _ _ _ _ _ Hn H1), (dedup_stage_den sense _ _ _ _ _ _ _ _ Hn H2). reflexivity.
 Qed.
+
+(* the inline flags never change whether the FILL loop succeeds, nor the keys,
+   universes, FILL marks and the counter; the two tables have the same models *)
+Theorem fill_flags_lockstep fuel fd1 fg1 fd2 fg2 dic counter :
+  (forall k, lookup k dic <> None -> k <= counter) ->
+  match fill_loop fuel fd1 fg1 dic (fill_keys dic) (dic, counter),
+        fill_loop fuel fd2 fg2 dic (fill_keys dic) (dic, counter) with
+  | Ok (d1, c1), Ok (d2, c2) => c1 = c2 /\ shape d1 = shape d2 /\ same_models d1 d2
+  | Err e1, Err e2 => e1 = e2
+  | _, _ => False
+  end.
+Proof.
+  intros Hb.
+  assert (Hs : srel (dic, counter) (dic, counter)).
+  { split; [reflexivity|]. split; [reflexivity|]. split; [intros s r; tauto|split; exact Hb]. }
+  pose proof (fill_loop_rel fd1 fg1 fd2 fg2 dic fuel (fill_keys dic) _ _ Hs) as H.
+  destruct (fill_loop fuel fd1 fg1 dic (fill_keys dic) (dic, counter)) as [[d1 c1]|e1],
+           (fill_loop fuel fd2 fg2 dic (fill_keys dic) (dic, counter)) as [[d2 c2]|e2]; try exact H.
+  destruct H as [Hc [Hsh [Hm _]]]. cbn [fst snd] in *. auto.
+Qed.
